@@ -36,7 +36,9 @@ HOSTILE_INSERT = (
     [('foreign-letter', c) for c in C.LETTERS_FOREIGN] +
     [('surrogate', c) for c in C.SURROGATES] +
     [('combining', c) for c in C.COMBINING] +
-    [('symbol', c) for c in C.SYMBOLS]
+    [('symbol', c) for c in C.SYMBOLS] +
+    [('foreign-digit', c) for c in ['٣', '३', '²', '①', 'Ⅷ', '\U0001d7d7', '፩', '\U00010a40', '５', '〇']] +
+    [('zero-width', c) for c in ['\u200b', '\u200d', '\ufeff', '\u2060']]
 )
 
 
@@ -131,7 +133,8 @@ DECOR_POOL = (
     list(" -./:,*'") +
     ['\t', '\n', '\r', '\x0b', '\x0c', '\x1c', '\x1d', '\x1e', '\x1f', '\x85'] +
     [' ', '　', ' ', ' ', '‐', '‑', '–', '—', '−',
-     '．', '／', '：', '，', '’', '․', '⁄', '﹣', '－', '­', '᠎']
+     '．', '／', '：', '，', '’', '․', '⁄', '﹣', '－', '­', '᠎',
+     '\u200b', '\u200c', '\u200d', '\ufeff', '\u2060']
 )
 
 
@@ -157,6 +160,14 @@ def decorations(v, modname, tier, rng, pool=None):
     yield ('identity', v)
     yield ('lower', v.lower())
     yield ('swapcase', v.swapcase())
+    if any(c.isalpha() for c in v):
+        yield ('mixedcase', v.lower().capitalize())
+        yield ('mixedcase', ''.join(c.upper() if i % 2 else c.lower() for i, c in enumerate(v)))
+        for _ in range(3):
+            yield ('mixedcase', ''.join(c.upper() if rng.random() < 0.5 else c.lower() for c in v))
+    if v[:1].isdigit():
+        for k in (1, 3, 5, 8):
+            yield ('zeropad', '0' * k + v)
     for ch in (' ', '\t', '\n', '\r\n', ' ', '\x1c'):
         yield ('surround', ch + v + ch)
         yield ('surround', v + ch)
